@@ -97,11 +97,21 @@ Definition ents_of (w : world) : list (nat * StateModel.entry) :=
   combine (seq 0 (length (StateModel.ents (w_st w)))) (StateModel.ents (w_st w)).
 
 (* G3 (A): every file object has an entry or a pending event *)
+Definition is_none' {T} (o : option T) : bool := match o with None => true | Some _ => false end.
 Definition covered (w : world) (sd : bool) : bool :=
   forallb (fun k => existsb (fun ee => match oidk (StateModel.s_oid (StateModel.gs (snd ee) sd)) with
                                        | Some k' => Nat.eqb k k'
                                        | None => false
                                        end) (ents_of w) || pending w sd k)
+          (seq 2 (length (ProvModel.p_heap (prov_of w sd)) - 2)).
+
+(* an object the engine made (no ghost record) has an entry from the moment it exists (clause i_cove of AlgoInv.Inv) *)
+Definition covered_engine (g : ghost) (w : world) (sd : bool) : bool :=
+  forallb (fun k => negb (is_none' (g_get k (g_of g sd))) ||
+                    existsb (fun ee => match oidk (StateModel.s_oid (StateModel.gs (snd ee) sd)) with
+                                       | Some k' => Nat.eqb k k'
+                                       | None => false
+                                       end) (ents_of w))
           (seq 2 (length (ProvModel.p_heap (prov_of w sd)) - 2)).
 
 (* G4 (F): ids unique per side *)
@@ -243,6 +253,7 @@ Definition inv_code (g : ghost) (w : world) : N :=
   else if negb (clock_ok w) then 6
   else if negb (root_entries_ok w) then 7
   else if negb (no_temps w) then 8
+  else if negb (covered_engine g w false && covered_engine g w true) then 9
   else match find (fun ee => negb (entry_ok g w (fst ee) (snd ee))) (skipn 2 (ents_of w)) with
        | Some ee => 100 + N.of_nat (fst ee)
        | None => 0
